@@ -122,6 +122,9 @@ def run_gen(spec, res):
                 continue
             damaged, dpath, detail = r
             one_fault(res, xmlschema, lxml_etree, schema, fam, version, damaged, dpath, kind, detail, prefixes, rng)
+        # a tree that keeps comments / PIs (lxml): character data after a comment inside an element-only content is a
+        # single-node damage of that element, like stray text after a child element
+        stray_text_after_comment(res, xmlschema, lxml_etree, schema, fam, version, doc, text, rng)
         for kind in D.IDENTITY_FAULTS:
             r = D.identity_fault(doc, fam, kind, rng)
             if r is None:
@@ -136,6 +139,37 @@ def run_gen(spec, res):
             if not errs:
                 res.violation('identity-fault-not-reported:' + kind, case, detail)
             check_paths(res, schema, resource, errs, kind, case)
+
+
+def stray_text_after_comment(res, xmlschema, lxml_etree, schema, fam, version, doc, text, rng):
+    cands = [p for p, n in doc.walk() if n.meta.get('elem_only') and n.children]
+    if not cands:
+        return
+    dpath = rng.choice(cands)
+    root = lxml_etree.fromstring(text.encode('utf-8'))
+    target = root
+    for i in dpath:
+        target = [c for c in target if isinstance(c.tag, str)][i]
+    node = lxml_etree.Comment(' c ') if rng.random() < 0.5 else lxml_etree.ProcessingInstruction('vk', 'x')
+    node.tail = 'stray'
+    target.insert(rng.randint(0, len(target)), node)
+    resource = xmlschema.XMLResource(root)
+    errs = list(schema.iter_errors(resource))
+    res.case(env.h8((fam, 'stray_text_after_comment', len(dpath))))
+    res.count('fault:stray_text_after_comment')
+    case = {'family': fam, 'version': version, 'doc': lxml_etree.tostring(root).decode(), 'fault': 'stray_text_after_comment',
+            'path': list(dpath), 'lxml': True}
+    label = f'{fam} stray text after a comment / PI inside the element-only content at {"/".join(map(str, dpath)) or "root"}'
+    if not errs:
+        res.violation('fault-not-reported:stray_text_after_comment', case, label)
+        return
+    check_paths(res, schema, resource, errs, label, case)
+    idx = index_paths(resource.root)
+    located = [idx[id(e.elem)] for e in errs if e.elem is not None and id(e.elem) in idx]
+    if tuple(dpath) not in located:
+        res.violation('no-error-at-damaged-node:stray_text_after_comment', case, label + ' errors at ' + str(located))
+    else:
+        res.count('faults:localised')
 
 
 def one_fault(res, xmlschema, lxml_etree, schema, fam, version, damaged, dpath, kind, detail, prefixes, rng):
